@@ -573,6 +573,15 @@ class Model:
                     a = self.bind_args(it, c, args, {})
                     cc = CallCtx(p, it, a, p.snapshot_state(), None, None, obj, self)
                     return SV(c.ret, _zb(c.pure_value(cc)))
+        if isinstance(e.func, ast.Name) and not e.keywords and e.func.id in self.func_contracts \
+                and getattr(self.func_contracts[e.func.id], "pure_value", None) is not None:
+            # a side-effect free module-level function whose contract gives its value as a term
+            c = self.func_contracts[e.func.id]
+            args = [pe.ev(a, env) for a in e.args]
+            a = self.bind_args(it, c, args, {})
+            cc = CallCtx(p, it, a, p.snapshot_state(), None, None, None, self)
+            v = c.pure_value(cc)
+            return SV(c.ret, v if not isinstance(v, bool) else z3.BoolVal(v))
         if isinstance(e.func, ast.Name) and not e.keywords:
             f = it.lookup(e.func.id, env, e)
             if isinstance(f, Builtin) and f.name in ("isinstance", "_assertnode", "len", "bool"):
